@@ -175,12 +175,18 @@ def fold_item(it, ctx, path, rec):
     if k in ("data", "acc"):
         return ctx
     if k in ("seq", "source", "tuple", "bare", "fcseq", "frseq"):
-        return fold_items(it[1], ctx, path, rec)
+        out = fold_items(it[1], ctx, path, rec)
+        rec.setdefault("#nodes", {})[tuple(path)] = copy.deepcopy(out)
+        return out
     if k == "split":
         results = []
         for bi, br in enumerate(it[1]):
-            results.append(fold_items(br[1], copy.deepcopy(ctx), path + [bi], rec))
-        return intersect(results)
+            res = fold_items(br[1], copy.deepcopy(ctx), path + [bi], rec)
+            rec.setdefault("#nodes", {})[tuple(path + [bi])] = copy.deepcopy(res)
+            results.append(res)
+        out = intersect(results)
+        rec.setdefault("#nodes", {})[tuple(path)] = copy.deepcopy(out)
+        return out
     raise ValueError("unknown item %r" % (it,))
 
 
